@@ -143,6 +143,11 @@ def load(inf, lazy=False):
         return serialize.load(inf)
 
     try:
+        # the HDF5 probe below may read from a stream without rewinding it
+        start = inf.tell()
+    except (AttributeError, OSError):
+        start = None
+    try:
         with xr.open_dataset(default_extension(inf), engine='h5netcdf') as ds:
             if '_source_class' in ds.attrs:
                 _source_class = ds.attrs.pop('_source_class')
@@ -172,7 +177,8 @@ def load(inf, lazy=False):
             else:
                 return ds
     except (OSError, ValueError):
-        pass
+        if start is not None:
+            inf.seek(start)
 
     # attempt to load a yaml file
     try:
